@@ -55,6 +55,9 @@ pub enum ArrSpec {
     PrefixFromBoundUntil { inner: Box<ArrSpec>, horizon: u64 },
     /// `Curve::from(&ArrivalCurvePrefix)` of inner (which must build a Prefix / PrefixFromBoundUntil)
     CurveFromPrefix { inner: Box<ArrSpec> },
+    /// a user-defined arrival model: only `number_arrivals` is forwarded, so `steps_iter` is the
+    /// trait's default implementation (`brute_force_steps_iter`)
+    OpaqueDefault { inner: Box<ArrSpec> },
     /// `Curve::from(Periodic)` / `Curve::from(Sporadic)` / `Sporadic::from(Periodic)`
     CurveFromPeriodic { t: u64 },
     CurveFromSporadic { t: u64, j: u64 },
@@ -80,6 +83,17 @@ impl ArrivalBound for SliceHolder {
     }
     fn clone_with_jitter(&self, jitter: Duration) -> Box<dyn ArrivalBound> {
         <[Box<dyn ArrivalBound>] as ArrivalBound>::clone_with_jitter(&self.0[..], jitter)
+    }
+}
+/// forwards `number_arrivals` only (default `steps_iter`)
+#[derive(Clone)]
+pub struct OpaqueArr(pub Rc<dyn ArrivalBound>);
+impl ArrivalBound for OpaqueArr {
+    fn number_arrivals(&self, delta: Duration) -> usize {
+        self.0.number_arrivals(delta)
+    }
+    fn clone_with_jitter(&self, jitter: Duration) -> Box<dyn ArrivalBound> {
+        Box::new(response_time_analysis::arrival::Propagated::with_jitter(self, jitter))
     }
 }
 pub type DynCost = Rc<dyn JobCostModel>;
@@ -162,6 +176,7 @@ impl ArrSpec {
                 Rc::new(Curve::from_arrival_bound_until(&inner.build(), d(*horizon)))
             }
             ArrSpec::CurveFromPrefix { inner } => Rc::new(Curve::from(&build_prefix(inner))),
+            ArrSpec::OpaqueDefault { inner } => Rc::new(OpaqueArr(inner.build())),
             ArrSpec::CurveFromPeriodic { t } => Rc::new(Curve::from(Periodic::new(d(*t)))),
             ArrSpec::CurveFromSporadic { t, j } => {
                 Rc::new(Curve::from(Sporadic::new(d(*t), d(*j))))
